@@ -107,6 +107,10 @@ def wrap_vector(kind, values, index_plan="default", name=None):
         return to_ndarray(values)
     if kind == "ndarray2d":
         return to_ndarray(values).reshape(n, 1)
+    if kind == "ndarray_row":
+        return to_ndarray(values).reshape(1, n)  # a row vector: leading singleton dimension
+    if kind == "nested_list":
+        return [list(values)]
     if kind == "ndarray_object":
         return _obj_array(list(values))
     if kind == "ndarray_readonly":
